@@ -40,11 +40,17 @@ fn strategy(tier: Tier) -> BoxedStrategy<Case> {
                 gens::latency(),
                 if loss_free { Just(vec![]).boxed() } else { gens::fates_fair(300, 120) },
                 prop::collection::vec((0u32..80, 0u8..3), nsock..=nsock),
+                // accept calls that are given up before anything arrives (their place in the acceptor queue stays
+                // behind as a dead entry that the next request is offered to first)
+                prop::collection::vec(prop::option::weighted(0.3, (1u8..3, 1u32..40)), nsock..=nsock),
             )
-                .prop_map(move |(socks, conns, lat_ms, fates, acc)| {
+                .prop_map(move |(socks, conns, lat_ms, fates, acc, impatient)| {
                     // accept calls: one per incoming connection plus a few spare, issued at generated instants
                     let mut accepts = vec![];
                     for (si, (t0, spare)) in acc.iter().enumerate() {
+                        if let Some((n, patience)) = impatient[si] {
+                            for _ in 0..n { accepts.push(McAccept { sock: si, at_ms: *t0, patience_ms: Some(patience) }); }
+                        }
                         let n = conns.iter().filter(|c| c.to == si).count() + *spare as usize;
                         for j in 0..n {
                             accepts.push(McAccept { sock: si, at_ms: t0 + j as u32, patience_ms: None });
@@ -262,6 +268,7 @@ pub fn oracle(case: &McCase, res: &McResult) -> Outcome {
         }
     }
     if res.conns.iter().any(|c| matches!(c.out, CallOut::Abandoned(_))) { labels.insert("connect_waited_and_abandoned"); }
+    if res.accs.iter().any(|a| matches!(a.out, CallOut::Abandoned(_))) { labels.insert("accept_given_up_early"); }
     if !loss_free { labels.insert("lossy"); }
     let established = by_token.len();
     if established >= 4 { labels.insert("four_or_more_established"); }
@@ -304,7 +311,7 @@ impl CheckDef for Mc {
 }
 
 pub fn run(ctx: &mut Ctx) {
-    ctx.rule("MC: 2..4 sockets with limits 1..64, up to 14 (quick) / 24 (thorough) connect calls in both directions and several to the same peer at clustered instants, accept calls per socket, colliding initial sequence numbers and adjacent initial connection ids, loss-free or fair-lossy (k=1, reordering/duplication) network. Every connector writes a token naming its call and a keyed payload, the acceptor answers with the reverse keyed payload. Oracle: every byte a stream yields belongs to its own connection (token, both payloads, nothing extra), no token twice, the number of streams the application holds never exceeds the limit, simultaneously held connections of one address pair use distinct ids, connect calls end as Ok / refused / abandoned; loss-free: identified connections complete their exchange whatever else happens and certainly admissible attempts succeed. non-trivial = at least 2 connections established; distinct by hash of outcomes");
+    ctx.rule("MC: 2..4 sockets with limits 1..64, up to 14 (quick) / 24 (thorough) connect calls in both directions and several to the same peer at clustered instants, accept calls per socket (in 30 % of the sockets preceded by one or two calls that are given up 1..40 ms later, before anything arrives), colliding initial sequence numbers and adjacent initial connection ids, loss-free or fair-lossy (k=1, reordering/duplication) network. Every connector writes a token naming its call and a keyed payload, the acceptor answers with the reverse keyed payload. Oracle: every byte a stream yields belongs to its own connection (token, both payloads, nothing extra), no token twice, the number of streams the application holds never exceeds the limit, simultaneously held connections of one address pair use distinct ids, connect calls end as Ok / refused / abandoned; loss-free: identified connections complete their exchange whatever else happens and certainly admissible attempts succeed. non-trivial = at least 2 connections established; distinct by hash of outcomes");
     ctx.assume("connect calls are abandoned by the application after 6 s; 'held' = from the call's Ok until the application dropped both halves (a lower bound of the library's own live count)");
     ctx.replay_corpus::<Mc>();
     ctx.run_generated::<Mc>(ctx.tier.pick(60_000, 3_000_000));
